@@ -1,0 +1,8 @@
+//go:build verif
+// +build verif
+
+package firmwaremanagement
+
+// Contracts for /verif (tool: gov); comments only.
+// the command registry and the sentinel error are written by package init only
+//@ immutable commandPayloadRegistry ErrNoPayloadForCID
